@@ -78,7 +78,8 @@ def replay_run(prop, run, tier):
     res = {"idx": -1, "seed": run.get("seed", 0)}
     return envsim.execute(run["spec"], run["modes"], run.get("props", [prop]),
                           run.get("seed", 0), tier, res, ops=run["ops"],
-                          shadow=run.get("shadow"))
+                          shadow=run.get("shadow"),
+                          prelude=run.get("prelude"))
 
 
 def shrink_candidates(run):
